@@ -137,10 +137,18 @@ class Explorer:
             return env[e.id]
         if isinstance(e, ast.Await):
             return self.value(e.value, env)
-        if isinstance(e, (ast.Tuple, ast.List)) and isinstance(e.ctx, ast.Load) and not any(isinstance(x, ast.Starred) for x in e.elts) and (
-                self.enter_with or any(isinstance(n, (ast.Attribute, ast.Call)) for n in ast.walk(e))):
-            # a display whose items involve objects: item by item
-            items_ = [self.value(x, env) for x in e.elts]
+        if isinstance(e, (ast.Tuple, ast.List)) and isinstance(e.ctx, ast.Load) and (
+                self.enter_with or (not any(isinstance(x, ast.Starred) for x in e.elts) and any(isinstance(n, (ast.Attribute, ast.Call)) for n in ast.walk(e)))):
+            # a display whose items involve objects: item by item (a starred item of known length is spliced in)
+            items_: List[Any] = []
+            for x in e.elts:
+                if isinstance(x, ast.Starred):
+                    sv_ = self.value(x.value, env)
+                    if not isinstance(sv_, (list, tuple)):
+                        return UNKNOWN
+                    items_.extend(sv_)
+                else:
+                    items_.append(self.value(x, env))
             return tuple(items_) if isinstance(e, ast.Tuple) else items_
         if isinstance(e, ast.Attribute):
             base = self.value(e.value, env) if isinstance(e.value, (ast.Name, ast.Attribute)) else None
@@ -569,6 +577,26 @@ class Explorer:
                 env["$yields"] = tuple(env.get("$yields", ())) + tuple(got_)
             else:
                 env["$yields"] = tuple(env.get("$yields", ())) + (UNKNOWN,)
+            return [env]
+        if (isinstance(s, ast.Expr) and self.enter_with and isinstance(s.value, ast.Call) and isinstance(s.value.func, ast.Attribute)
+                and isinstance(s.value.func.value, ast.Name) and isinstance(env.get(s.value.func.value.id), list)
+                and s.value.func.attr in ("append", "extend", "insert") and not s.value.keywords):
+            # a list the path built itself grows: the new list replaces it in this path's environment
+            name_ = s.value.func.value.id
+            args_ = [self.value(a, env) for a in s.value.args]
+            cur_ = list(env[name_])
+            env = dict(env)
+            if s.value.func.attr == "append" and len(args_) == 1:
+                cur_.append(args_[0])
+                env[name_] = cur_
+            elif s.value.func.attr == "extend" and len(args_) == 1 and isinstance(args_[0], (list, tuple)):
+                cur_.extend(args_[0])
+                env[name_] = cur_
+            elif s.value.func.attr == "insert" and len(args_) == 2 and isinstance(args_[0], int):  # noqa: PLR2004
+                cur_.insert(args_[0], args_[1])
+                env[name_] = cur_
+            else:
+                env[name_] = UNKNOWN
             return [env]
         if isinstance(s, ast.Expr):
             if isinstance(s.value, ast.Constant):
